@@ -1,4 +1,4 @@
-CLAIMED = ["C01", "C03", "C04", "C05", "C06", "C07", "C08", "C09", "C10", "C11", "C12", "C13", "C14", "C15", "C16", "C17", "C18", "C19", "C20"]
+CLAIMED = ["C01", "C02", "C03", "C04", "C05", "C06", "C07", "C08", "C09", "C10", "C11", "C12", "C13", "C14", "C15", "C16", "C17", "C18", "C19", "C20"]
 
 SETUP = "./setup.sh"
 
@@ -6,7 +6,7 @@ HOOKS = {
     "guard": "verif",
     "enable": "go build -tags verif (the harness module /verif/harness replaces github.com/specterops/dawgs => /repo and is rebuilt by every check)",
     "baseline_off_cmd": "cd /repo && GOFLAGS=-mod=mod GOPROXY=off go test -vet=off -count=1 -timeout 25m ./...",
-    "source_commits": ["22a8b05", "933ca3c", "ee166ed"],
+    "source_commits": ["22a8b05", "933ca3c", "ee166ed", "8068d0a"],
     "add_only": True,
 }
 
